@@ -46,3 +46,28 @@ Theorem C02_tu_prefix : forall m n (S : mat) k, (k <= m)%coq_nat -> length S = m
   tu_bf m n S = true -> tu_bf k n (firstn k S) = true.
 Proof. exact tu_bf_prefix. Qed.
 Print Assumptions C02_tu_prefix.
+
+(* ---------- every size: certified 0/1 matrices.  A graph witness for the matrix or its transpose (GraphicRegular.v), or a
+   matrix that binary series-parallel reductions reduce to nothing (SpTU.v), is regular by the definition-level oracle, so an
+   accepted `regular_cert` record carries a verdict that equals the definition although no brute-force oracle could decide it *)
+From Cmr Require GraphModel RegCertModel RegCertProofs SpModel SpTU.
+Theorem C02_graphic_and_cographic_matrices_of_every_size : forall rec cfg m n M rc v tr G f c r rest,
+  RegCertModel.regular_cert_input rec = Some ((cfg, (m, n, M), rc, v, tr, GraphModel.WGraph G f c r), rest) ->
+  wf_mat m n M = true -> is_binary M = true -> RegCertModel.cert_holds tr m n M G f c = true ->
+  RegCertModel.judge_regular_cert rec = Z0 ->
+  rc = Z0 /\ regular_bf m n M = true /\ (v = Zpos (xO xH) -> cfg_stopflags cfg = true) /\ (v <> Zpos (xO xH) -> v = Zpos xH).
+Proof. exact RegCertProofs.judge_regular_cert_sound. Qed.
+Print Assumptions C02_graphic_and_cographic_matrices_of_every_size.
+
+Theorem C02_series_parallel_matrices_of_every_size : forall rec cfg m n M rc v tr rest,
+  RegCertModel.regular_cert_input rec = Some ((cfg, (m, n, M), rc, v, tr, GraphModel.WNone), rest) ->
+  wf_mat m n M = true -> is_binary M = true -> SpModel.sp_greedy false m n M = true ->
+  RegCertModel.judge_regular_cert rec = Z0 ->
+  rc = Z0 /\ regular_bf m n M = true /\ (v = Zpos (xO xH) -> cfg_stopflags cfg = true) /\ (v <> Zpos (xO xH) -> v = Zpos xH).
+Proof. exact RegCertProofs.judge_regular_cert_sound_sp. Qed.
+Print Assumptions C02_series_parallel_matrices_of_every_size.
+
+Theorem C02_series_parallel_is_regular : forall m n M, wf_mat m n M = true -> is_binary M = true ->
+  SpModel.sp_greedy false m n M = true -> regular_bf m n M = true.
+Proof. exact SpTU.sp_binary_regular. Qed.
+Print Assumptions C02_series_parallel_is_regular.
